@@ -62,7 +62,7 @@ void pool_destroy(void *pool) { delete static_cast<Pool *>(pool); }
 void *priv_new() { return new Priv(); }
 void priv_delete(void *p) { delete static_cast<Priv *>(p); }
 
-uint64_t step_budget_for(const BOp &) { return 3000000ull; }
+uint64_t step_budget_for(const BOp &) { return 12000000ull; }
 
 // One operation.  Everything it returns is folded into a digest (bytes, sizes, values, exception type - never addresses).
 uint64_t do_op(const void *pool_, void *priv_, const BOp &op) {
@@ -91,7 +91,8 @@ uint64_t do_op(const void *pool_, void *priv_, const BOp &op) {
         case 6: { hs(h, s.trim()); hs(h, s.trim_left(" \tabc")); hs(h, s.trim_right("xyz \n")); break; }
         case 7: { ST::string n = slice(s, op.c); hs(h, s.before_first(n, cs)); hs(h, s.after_first(n.c_str(), cs)); hs(h, s.before_last(' ')); hs(h, s.after_last(n, cs)); break; }
         case 8: { hs(h, s.to_upper()); hs(h, s.to_lower()); break; }
-        case 9: { ST::string n = slice(s, op.c); hs(h, s.replace(n, t, cs)); hs(h, s.replace(n.c_str(), "<>", cs)); hs(h, s.replace(t, n)); break; }
+        case 9: { ST::string n = slice(s, op.c); const ST::string &rt = (s.size() > 200 && t.size() > 200) ? P.strs[1] : t;      // (long x long would be quadratic: megabytes of output)
+                  hs(h, s.replace(n, rt, cs)); hs(h, s.replace(n.c_str(), "<>", cs)); hs(h, s.replace(t, n)); break; }
         case 10: { ST::string n = slice(s, op.c); auto v = s.split(n, op.c % 5 ? ST_AUTO_SIZE : 2, cs); h.u64(v.size()); for (auto &x : v) hs(h, x); auto w = s.split(' '); h.u64(w.size()); for (auto &x : w) hs(h, x); auto u = s.split(", "); h.u64(u.size()); break; }
         case 11: { auto v = s.tokenize(); h.u64(v.size()); for (auto &x : v) hs(h, x); auto w = s.tokenize(",;e"); h.u64(w.size()); for (auto &x : w) hs(h, x); break; }
         case 12: hb(h, s.to_utf16()); break;
